@@ -1,8 +1,9 @@
 (* C17 - Changelog parsing returns every entry faithfully, or an error.
    Property theorems only.  Model: CL.parse_one / CL.parse = changelog.ParseOne / Parse on the lines of the
-   input (GS.lines_of: the last line may lack its newline).  ORACLES (section parameters): parse_version =
-   version.Parse (C03) and parse_date = time.Parse(RFC1123Z); the tie instantiates parse_version with the C03
-   model and parse_date with the answers of the real time.Parse, asked directly. *)
+   input (GS.lines_of: the last line may lack its newline).  The theorems of the section are generic in
+   parse_version and parse_date; below the section they are instantiated with the C03 model of version.Parse and
+   with DATE.parse_when, the model of time.Parse with the library's trailer layout (until round 12 the date was
+   an oracle answered by the real time.Parse; now the tie compares time.Parse with the model). *)
 From Coq Require Import List Ascii String Bool Arith Lia.
 Require Import GS R2 CL CL2 CL3 HIST.
 Require LR.
@@ -67,3 +68,24 @@ Example C17_instance :
   CL.parse str str CL2ex.pv CL2ex.pv (unlines (doc str str [CL2ex.e1; CL2ex.e1] 2)) =
   Some [entry_val str str CL2ex.e1; entry_val str str CL2ex.e1].
 Proof. exact CL2ex.C17_nonvacuous. Qed.
+
+(* ---- the date is no longer an oracle ---- *)
+Require DATE DATEp V11.
+(* every well-formed trailer date - weekday, a day of the month written with one or two digits, month, four-digit year,
+   time, numeric zone - is read to exactly its instant (Unix seconds) and its zone offset *)
+Theorem C17_trailer_date : forall f, DATEp.wf_date f ->
+  DATE.parse_when (DATEp.render_when f) = Some (DATEp.unix_of f, DATEp.offset_of f).
+Proof. exact DATEp.parse_when_render. Qed.
+Print Assumptions C17_trailer_date.
+(* the changelog theorem with the library's own version and date readers in the place of the two parameters *)
+Theorem C17_parse_render_dated : forall es k,
+  Forall (rentry_ok V3.version (BinNums.Z * BinNums.Z) V11.parse_u DATE.parse_when) es ->
+  Forall (free nl) (doc V3.version (BinNums.Z * BinNums.Z) es k) ->
+  CL.parse V3.version (BinNums.Z * BinNums.Z) V11.parse_u DATE.parse_when (unlines (doc V3.version (BinNums.Z * BinNums.Z) es k)) =
+  Some (map (entry_val V3.version (BinNums.Z * BinNums.Z)) es).
+Proof. exact (C17_parse_render V3.version (BinNums.Z * BinNums.Z) V11.parse_u DATE.parse_when). Qed.
+Theorem C17_never_silently_shortened_dated : forall fuel ls es,
+  CL.parse_fuel V3.version (BinNums.Z * BinNums.Z) V11.parse_u DATE.parse_when fuel ls = Some es ->
+  (CL.headers ls <= List.length es)%nat.
+Proof. exact (C17_never_silently_shortened V3.version (BinNums.Z * BinNums.Z) V11.parse_u DATE.parse_when). Qed.
+Print Assumptions C17_parse_render_dated.
